@@ -106,7 +106,17 @@ package discovery
 //@   ghost-var called bool
 //@   // the continuation runs at most once, with a sorted list of exactly the expected size, after expected-1 matching
 //@   // acknowledgements; it runs if and only if Synchronize succeeds
+//@   // a confirmation is counted only if its list renders exactly as the own list: every decrement of the counter is matched
+//@   // by a rendering of the received list that equals the own rendering
+//@   ghost-var renders int
+//@   ghost-var matched int
+//@   after-call fmt.Sprintf(fm, aa):
+//@     assert [renders-the-response] renders >= 1 ==> len(aa) == 1 && wraps(aa[0], peers)
+//@     ghost matched = ite(renders >= 1 && result == myView, matched + 1, matched)
+//@     ghost renders = renders + 1
+//@   loop 1: invariant [counted] renders >= 1 && acknowledgementsLeft + matched == expectedMemberCount - 1
 //@   on-call f(ms):
+//@     assert [confirmed-identical] matched >= expectedMemberCount - 1
 //@     assert [size]         len(ms) == expectedMemberCount
 //@     assert [sorted]       forall a int, b int :: 0 <= a && a < b && b < len(ms) ==> ms[a] <= ms[b]
 //@     assert [acknowledged] acknowledgementsLeft <= 0
